@@ -586,7 +586,16 @@ async fn one_case(seed: u64, case: u64, max_ops: usize, report: &Report) {
                 if let Some(snap) = h.lin.get(&tl).and_then(|l| l.snaps.get(v)) {
                     let r = crate::walker::guard(async {
                         let ds = h.lin[&main].head.checkout_version(name.as_str()).await.map_err(|e| e.to_string())?;
-                        crate::snap::take_snapshot(&ds, &h.env.raw()).await
+                        let s = crate::snap::take_snapshot(&ds, &h.env.raw()).await?;
+                        // an object the manifest names is gone: "unreadable", with the path, so that the
+                        // cause can be looked up in the store log (same rule as the lineage monitor)
+                        for (sig, detail) in &s.walk_problems {
+                            if sig == "deletion-file-missing" {
+                                let p = detail.rsplit("file ").next().unwrap_or("");
+                                return Err(format!("deletion vector unreadable: Object at location {p} not found"));
+                            }
+                        }
+                        Ok(s)
                     })
                     .await;
                     report.count("tag_checkouts_compared", 1);
@@ -604,13 +613,17 @@ async fn one_case(seed: u64, case: u64, max_ops: usize, report: &Report) {
                         }
                         Err(e) => {
                             broken.insert((tl.clone(), *v));
-                            let (class, clone_only) = classify_unreadable(&h, &world, &rec, &tl, &e);
-                            if clone_only {
-                                report.count("shallow_clones_broken_by_maintenance_of_their_source(not judged)", 1);
-                                continue;
-                            }
+                            let (class, _clone_only) = classify_unreadable(&h, &world, &rec, &tl, &e);
+                            // What a tag reads is protected wherever the tag lives (branch or shallow
+                            // clone): one narrow class for "an ancestor lineage's cleanup deleted an
+                            // object the tagged version references"; anything else keeps its own class.
+                            let sig = if class == "object-deleted-by-cleanup-on-the-lineage-it-was-cut-from" {
+                                "tag-on-clone-or-branch-unreadable-after-cleanup-on-the-lineage-it-was-cut-from".to_string()
+                            } else {
+                                format!("tagged-version-unreadable-{class}")
+                            };
                             report.violation(
-                                &format!("lineage-unreadable-{class}"),
+                                &sig,
                                 &format!("tag {name} -> {}:v{} cannot be read after step {} ({}): {}", tl.label(), v, rec.idx, rec.kind.name(), e.chars().take(300).collect::<String>()),
                                 json!({"ctx": ctx(&h), "error": e}),
                             );
